@@ -1,20 +1,25 @@
-"""C07 - ignore_exc turns every read failure into a cache miss (PooledClient part; Client/HashClient pending).
+"""C07 - ignore_exc turns every read failure into a cache miss (PooledClient and HashClient single-key reads; Client._fetch_cmd pending).
 
 For each read method m of PooledClient with ignore_exc=True and any Exception-class failure of the inner call
 (connect / send / receive / parse / deserialise - by the inner Client's contract), PooledClient.m does not raise and
 returns exactly Miss(m, forwarded arguments), where Miss is *computed* by executing the real Client.m with
 _fetch_cmd answering {} (nothing found) - not written by hand; afterwards the slot is back in the pool and the failed
 socket was closed by the inner client (C09), so the client is usable.
+HashClient get / gat / gats / gets: with ignore_exc, a failing inner call, a server inside its back-off window and "no
+server left" all return exactly that same miss value, and nothing escapes (_safely_run_func by its C13 contract).
 """
 from . import poolmodel as pm
+from . import hashmodel as hm
 
 TRUSTED = ["inner Client contract (raising exit => socket closed)", "pool contracts (C09)"]
 ASSUMPTIONS = ["inner clients are built with ignore_exc=False (proved in C16: _create_client)"]
-NOT_COVERED = ["Client's own ignore_exc path in _fetch_cmd (exchange function not yet mechanised)", "HashClient read wrappers (pending)",
+NOT_COVERED = ["Client's own ignore_exc path in _fetch_cmd (exchange function not yet mechanised)", "HashClient.get_many / gets_many",
                "input errors (MemcacheIllegalInputError before any I/O) are not server or network failures"]
 BUDGET = {"quick": 30, "thorough": 120}
 FILTER_BY_PROPERTY = True
+DEPENDS = ["C13"]      # _safely_run_func's contract: nothing escapes with ignore_exc
 
 
 def build(E, tier):
     pm.verify_pooled_client(E, methods=pm.READS)
+    hm.verify_hash_single(E)
